@@ -857,6 +857,14 @@ World *build_sessions(const J &plan)
 	for (auto &m : w->cfg["models"].a) ms->add(m.gets("name"), m);
 	SessionsModel *sm = new SessionsModel(w);
 	w->add(sm);
+	{
+		// C18: every subnet from /8 to /30 is a legal configuration; the server has to come up and serve min(16, size-3) sessions
+		World *w2 = w;
+		w->result_hooks.push_back([w2](J &) {
+			if (w2->srv && w2->srv->state == T_EXITED && w2->tun_bits >= 8 && w2->tun_bits <= 30)
+				w2->S.violations.push_back({"C18", "pool.server_refused_config", "iodined terminated (exit code " + std::to_string(w2->srv->exit_code) + ") with the legal tunnel subnet /" + std::to_string(w2->tun_bits)});
+		});
+	}
 	w->add(new ModelExtraction(w));
 	w->add(mk_c14_ledger(w, false));
 	w->add(mk_c15_fragsize(w));
